@@ -55,6 +55,17 @@ CHECKS = {
         technique="deterministic simulation: seeded histories with cross-process loads against a model path table",
         design_ref="DESIGN.md 4, 7 (C04)",
     ),
+    "C08": dict(
+        engine="K",
+        category="exploration",
+        text=("Seeded store-level operation histories (blobs, paths, re-open) on MemoryStore, LocalFileStore, the "
+              "cache-wrapped local store and DBFSStore over a fake dbutils, compared step by step with a dictionary model; "
+              "path alphabet with concatenation-ambiguous names, dots, spaces, unicode, '.'/'..' and doubled separators; "
+              "containment of every created link inside the data directory."),
+        note="Trusts: the dictionary model, the fake dbutils (fidelity to Databricks not checked), prefix-free path sets per run.",
+        technique="deterministic simulation: seeded store-operation histories with re-open against an executable reference model",
+        design_ref="DESIGN.md 6, 7 (C08)",
+    ),
     "C09": dict(
         engine="P",
         category="exploration",
